@@ -40,6 +40,9 @@ for na in (0, 1):
                         **(Z if vol_and else X)))
         OBLS.append(Obl('C09.4/or/' + tag, BB, 'obl_c09_zone_union', 'A' if vol_or else 'B', 'calc_union(BoundingZone) for %s: sound and valid' % tag, defines=d,
                         known=(['F5'] if na != nb else []), **(Z if vol_or else X)))
+OBLS.append(Obl('C09.3/transform', BB, 'obl_c09_bbox_transform', 'B', 'calc_transform(Transformation, BBox): the axis-aligned box of the transformed box contains the image of '
+                'every point of a finite box, for ANY matrix and translation (512 sparsity paths, ~7 min)', mode='real', timeout=120, validate=False, tier='thorough',
+                opts={'separate_asserts': True, 'max_site_forks': 200, 'max_paths': 2000}))
 SH = 'C09/shapes.cc'
 for e, w in [('box', 'Box'), ('sphere', 'Sphere'), ('cylinder', 'Cylinder'), ('ellipsoid', 'Ellipsoid'), ('cone', 'Cone (interior box clause: thorough tier)')]:
     OBLS.append(Obl('C09.1/' + e, SH, 'obl_c09_shape_' + e, 'B', w + ': the real build() against a recording IntersectSurfaceBuilder: the intersection of the emitted '
